@@ -213,6 +213,13 @@ class AffineExpr(ABC):
             return None
         if not isinstance(other, AffineConstantExpr):
             return None
+        if other.value == 0 and kind in (
+            AffineBinaryOpKind.Mod,
+            AffineBinaryOpKind.FloorDiv,
+            AffineBinaryOpKind.CeilDiv,
+        ):
+            # Division and remainder by zero are undefined: the expression is kept as is.
+            return None
 
         match kind:
             case AffineBinaryOpKind.Add:
